@@ -174,8 +174,13 @@ def run():
         work.append(after(a, b, "pair"))
 
     if c.replay_path:
-        ev = json.load(open(c.replay_path))["event"]
-        work = [ev["meta"]["job"]]
+        rp = json.load(open(c.replay_path))
+        ev = rp["event"]
+        if any(cl.startswith("C18.distinct_") for cl in rp.get("failing_clauses", [])):
+            # a clause that relates this load to the loads of all other documented names: replay all of those
+            work = [j for j in work if j.get("tag") == "documented"]
+        else:
+            work = [ev["meta"]["job"]]
         expect = []
 
     if len(work) > 64:
